@@ -120,6 +120,7 @@ func init() {
 }
 
 func runC01(c *harness.Ctx) {
+	defer maybeWoven(c)()
 	t := c.T
 	iat := t.Draw("iat", 3)
 	bias := t.Draw("bias", 2) == 1
